@@ -117,6 +117,12 @@ class Table(IdentifiableElement):
     def _build_odxlinks(self) -> Dict[OdxLinkId, Any]:
         result = {self.odx_id: self}
 
+        if self.admin_data is not None:
+            result.update(self.admin_data._build_odxlinks())
+
+        for sdg in self.sdgs:
+            result.update(sdg._build_odxlinks())
+
         for table_row_wrapper in self.table_rows_raw:
             if isinstance(table_row_wrapper, TableRow):
                 result.update(table_row_wrapper._build_odxlinks())
@@ -147,6 +153,12 @@ class Table(IdentifiableElement):
         for dcc in self.table_diag_comm_connectors:
             dcc._resolve_odxlinks(odxlinks)
 
+        if self.admin_data is not None:
+            self.admin_data._resolve_odxlinks(odxlinks)
+
+        for sdg in self.sdgs:
+            sdg._resolve_odxlinks(odxlinks)
+
     def _resolve_snrefs(self, context: SnRefContext) -> None:
         for table_row_wrapper in self.table_rows_raw:
             if isinstance(table_row_wrapper, TableRow):
@@ -154,3 +166,9 @@ class Table(IdentifiableElement):
 
         for dcc in self.table_diag_comm_connectors:
             dcc._resolve_snrefs(context)
+
+        if self.admin_data is not None:
+            self.admin_data._resolve_snrefs(context)
+
+        for sdg in self.sdgs:
+            sdg._resolve_snrefs(context)
